@@ -449,7 +449,9 @@ class InstanceValue(Object):
         self.ctx = ctx
         self.cls = cls
 
-    @cached_property
+    collecting = 0  # computations of _assigned in progress (they re-enter through evaluation)
+
+    @property
     def _attrs(self):
         # type: () -> Attributes
         # class attributes along the MRO, shadowed by what is assigned through self
@@ -457,18 +459,38 @@ class InstanceValue(Object):
         attrs.update(self._assigned)
         return attrs
 
-    @cached_property
+    @property
     def _assigned(self):
         # type: () -> Attributes
         """Attributes assigned through self in the methods of the class and of its bases"""
-        # visible to re-entrant lookups: ends inheritance cycles
-        attrs = self.__dict__['_assigned'] = {}  # type: Attributes
-        for b in reversed(self.cls.bases):
-            call = getattr(b, 'call', None)
-            o = call and call(self.ctx)
-            if isinstance(o, InstanceValue):
-                attrs.update(o._assigned)
-        attrs.update(self.cls.scope.top.assigns(self.ctx).get(self, {}))
+        try:
+            return self.__dict__['_assigned_complete']  # type: ignore[no-any-return]
+        except KeyError:
+            pass
+
+        if self.__dict__.get('_collecting'):
+            # a re-entrant lookup while the assignments are being collected
+            # (inheritance cycles, properties reading self): nothing known yet
+            return {}
+
+        attrs = {}  # type: Attributes
+        self.__dict__['_collecting'] = True
+        InstanceValue.collecting += 1
+        try:
+            for b in reversed(self.cls.bases):
+                call = getattr(b, 'call', None)
+                o = call and call(self.ctx)
+                if isinstance(o, InstanceValue):
+                    attrs.update(o._assigned)
+            attrs.update(self.cls.scope.top.assigns(self.ctx).get(self, {}))
+        finally:
+            InstanceValue.collecting -= 1
+            self.__dict__['_collecting'] = False
+
+        if not InstanceValue.collecting:
+            # a table computed inside another collection may have seen that
+            # one's incomplete state: only the outermost result is kept
+            self.__dict__['_assigned_complete'] = attrs
         return attrs
 
 
